@@ -75,11 +75,11 @@ def _value_upto_class(rng, cls):
 def gen_rowids(rng, maxlen, huge=False):
     n = rng.choice((0, 0, 1, 1, 2, 3, rng.randint(0, maxlen)))
     if huge:
-        # more row ids than one / two bytes can count
-        n = rng.choice((255, 256, 257, 65535, 65536, 70000))
+        # more row ids than one / two bytes can count; payloads beyond 64 KiB / 1 MiB (rarely 16 MiB)
+        n = rng.choice((255, 256, 257, 65535, 65536, 70000, 70000, 300000, 300000 if huge != "xl" else 4300000))
         start = rng.choice((0, 1, (1 << 32) - n - 1))
         step = rng.choice((1, 1, 2, 3)) if start < 10 else 1
-        return list(range(start, start + n * step, step))
+        return {"range": [start, n, step]}
     style = rng.random()
     if style < 0.5:
         pool = range(0, 12)
@@ -118,13 +118,20 @@ def gen_case(rng, tier="quick"):
     r = rng.random()
     if r < 0.004 and entries:
         # one entry with a long row-id array (lengths beyond 255 / 65535)
-        entries[rng.randrange(len(entries))][1] = gen_rowids(rng, 0, huge=True)
+        entries[rng.randrange(len(entries))][1] = gen_rowids(rng, 0, huge="xl" if (tier == "thorough" and rng.random() < 0.1) else True)
     elif r < 0.006:
         # many entries (index lengths beyond 255 / 65535), each tiny
         n_many = rng.choice((256, 300, 65536, 66000))
         base = _value_in_class(rng, coord_cls)
         entries = [[[base + i] + [0] * (arity - 1), [i] if i % 3 else []] for i in range(n_many)]
         entries = [e for e in entries if e[0][0] < (1 << 63)]
+    elif r < 0.014:
+        # dense, small-valued: many row ids in total although every value fits one (or two) bytes
+        nrows = rng.choice((200, 256, 300, 600, 70000 if rng.random() < 0.1 else 255))
+        nkeys = rng.choice((2, 3, 4))
+        base = rng.randint(0, 3)
+        owner = [rng.randrange(nkeys) for _ in range(nrows)]
+        entries = [[[base + j] + [0] * (arity - 1), [r_ for r_ in range(nrows) if owner[r_] == j]] for j in range(nkeys)]
     return {
         "kind": "entries",
         "arity": arity,
@@ -132,7 +139,48 @@ def gen_case(rng, tier="quick"):
         "entries": entries,
         "wmode": rng.choice(disk.WRITER_MODES),
         "rmode": rng.choice(disk.READER_MODES),
+        "bufsize": rng.choice((1, 7, 16, 64, 512, 8192)),
     }
+
+
+def derive_case(rng, base):
+    """A second file related to `base`: same process, a little later.  Relations that matter for state kept
+    between calls: same coordinates under another word size, same bytes under another interpretation,
+    one entry more / fewer, another common value."""
+    c = dict(base)
+    c.pop("shape", None)
+    c["entries"] = [[list(k), v] for k, v in base["entries"]]
+    r = rng.random()
+    if r < 0.3:
+        # same coordinates, common value from another word class
+        c["common"] = _value_in_class(rng, rng.randint(0, 3))
+    elif r < 0.55 and base["entries"]:
+        # the coordinate block's BYTES re-read under another word size (same arity)
+        mx = max([c0 for k, _ in base["entries"] for c0 in k])
+        w1 = refcodec.narrowest_word(max(mx, base["common"]))
+        blob = b"".join(int(x).to_bytes(w1, "little") for k, _ in base["entries"] for x in k)
+        w2 = rng.choice([w for w in (1, 2, 4, 8) if w != w1])
+        arity = base["arity"]
+        n = len(blob) // (w2 * arity)
+        keys = []
+        for i in range(n):
+            k = tuple(int.from_bytes(blob[(i * arity + j) * w2:(i * arity + j + 1) * w2], "little") for j in range(arity))
+            if k not in keys and all(x < (1 << 63) for x in k):
+                keys.append(k)
+        c["entries"] = [[list(k), gen_rowids(rng, 6)] for k in keys]
+        lo, hi = WORD_CLASSES[{1: 0, 2: 1, 4: 2, 8: 3}[w2]]
+        c["common"] = rng.choice((lo if lo else 1, hi, rng.randint(lo, hi)))
+    elif r < 0.7 and base["entries"]:
+        c["entries"] = c["entries"][:-1] if rng.random() < 0.5 else c["entries"][1:]
+    elif r < 0.85:
+        k = [_value_in_class(rng, rng.randint(0, 3))] + [0] * (base["arity"] - 1)
+        if k not in [e[0] for e in c["entries"]]:
+            c["entries"].append([k, gen_rowids(rng, 6)])
+    else:
+        c["entries"] = [[k, gen_rowids(rng, 6)] for k, _ in c["entries"]]
+    c["wmode"] = rng.choice(disk.WRITER_MODES)
+    c["rmode"] = rng.choice(disk.READER_MODES)
+    return c
 
 
 def case_from_index(idx, rng):
@@ -149,8 +197,23 @@ def case_from_index(idx, rng):
     }
 
 
+def rows_of(v):
+    """Row ids of an entry: a plain list, or the compact form {"range": [start, count, step]}."""
+    if isinstance(v, dict):
+        start, count, step = v["range"]
+        return list(range(start, start + count * step, step))
+    return v
+
+
+def expand(case):
+    """Same case with every compact row-id range written out (in memory only)."""
+    if case.get("kind") != "entries" or not any(isinstance(v, dict) for _, v in case["entries"]):
+        return case
+    return dict(case, entries=[[k, rows_of(v)] for k, v in case["entries"]])
+
+
 def entries_dict(case):
-    return {tuple(k): numpy.array(v, dtype=U32) for k, v in case["entries"]}
+    return {tuple(k): numpy.array(rows_of(v), dtype=U32) for k, v in case["entries"]}
 
 
 # ------------------------------------------------------------------------------ primitives
@@ -159,7 +222,7 @@ def entries_dict(case):
 def real_save(case, d, log, mode=None):
     """Run the real IndxIO.save on simulated disk d through a logging SimFile; return it."""
     IndxIO = catii_indxio()
-    f = d.writer(mode or case["wmode"])
+    f = d.writer(mode or case["wmode"], case.get("bufsize"))
     entries = entries_dict(case)
     try:
         with warnings.catch_warnings():
@@ -219,7 +282,7 @@ def case_digest(case):
 
 
 def nontrivial(case):
-    return len(case["entries"]) >= 1 and any(v for _, v in case["entries"])
+    return len(case["entries"]) >= 1 and any(rows_of(v) if isinstance(v, list) else True for _, v in case["entries"])
 
 
 def word_profile(case):
@@ -247,8 +310,19 @@ def pick_case(rng, tier):
     return gen_case(rng, tier)
 
 
+def pick_files(rng, tier):
+    """One run = 1-3 files handled one after the other in the same process (most often one)."""
+    first = pick_case(rng, tier)
+    files = [first]
+    if rng.random() < 0.3 and sum(len(rows_of(v)) for _, v in first["entries"]) < 5000 and len(first["entries"]) < 500:
+        for _ in range(rng.choice((1, 1, 2))):
+            files.append(derive_case(rng, files[-1]) if rng.random() < 0.8 else gen_case(rng, tier))
+    return files[0] if len(files) == 1 else {"kind": "multi", "files": files}
+
+
 def c10_execute(case, stats, log):
     prop = "C10"
+    case = expand(case)
     with disk.SimDisk() as d:
         f = real_save(case, d, log)
         disk.check_log_reproduces(f.ops, d)
@@ -286,7 +360,7 @@ def c10_execute(case, stats, log):
 
 def c10_run(base_seed, idx, stats, opts):
     rng = core.rng_for(base_seed, "storage", idx)
-    case = pick_case(rng, opts.get("tier", "quick"))
+    case = pick_files(rng, opts.get("tier", "quick"))
     return run_case("C10", case, stats)
 
 
@@ -371,6 +445,7 @@ def c11_execute(case, stats, log):
     prop = "C11"
     if case["kind"] == "scale":
         return c11_scale(case, stats, log)
+    case = expand(case)
     want_entries = [(tuple(k), v) for k, v in case["entries"]]
     with disk.SimDisk() as d:
         f = real_save(case, d, log)
@@ -424,33 +499,100 @@ def c11_run(base_seed, idx, stats, opts):
         case = {"kind": "scale", "lengths": SCALE_CASES[idx]}
     else:
         rng = core.rng_for(base_seed, "storage", idx)
-        case = pick_case(rng, opts.get("tier", "quick"))
+        case = pick_files(rng, opts.get("tier", "quick"))
     return run_case("C11", case, stats)
 
 
 # ------------------------------------------------------------------------------ C12
 
 
-def _must_reject(prop, content, where, rmode, stats, log, full_len):
-    with disk.SimDisk(content) as d:
+def _must_reject(prop, content, where, rmode, stats, log, full_len, on_disk=None):
+    """load() of the torn state must raise.  content: bytes for a fresh file, or None with on_disk set."""
+    d = disk.SimDisk(content) if on_disk is None else on_disk
+    size = len(content) if on_disk is None else d.size()
+    try:
         try:
             loaded = real_load(d, rmode)
         except Exception as e:  # the required outcome
-            log.add(where, len(content), type(e).__name__)
+            log.add(where, size, type(e).__name__)
             stats.count("rejected_" + type(e).__name__)
             return
+    finally:
+        if on_disk is None:
+            d.close()
     ents = loaded[0]
     raise Violation(
         prop, "torn-file-loaded", where.split(":")[0],
-        "a %d-byte prefix state of a %d-byte file loaded without error: %d entries, common %r"
-        % (len(content), full_len, len(ents), loaded[1]),
-        extra={"cut": len(content), "where": where},
+        "a %d-byte prefix state of a %d-byte file loaded without error (%s): %d entries, common %r"
+        % (size, full_len, where, len(ents), loaded[1]),
+        extra={"cut": size, "where": where},
     )
+
+
+def is_big(case):
+    return sum(len(rows_of(v)) for _, v in case["entries"]) > 600 or len(case["entries"]) > 200
+
+
+def c12_big(case, stats, log):
+    """Files too big for exhaustive enumeration: cut points sampled around every field boundary,
+    the ends, page and power-of-two offsets, plus seeded random ones; crash states and full disk."""
+    import random
+
+    prop = "C12"
+    case = expand(case)
+    rmode = case["rmode"]
+    with disk.SimDisk() as d:
+        f = real_save(case, d, log)
+        f.close()
+        full = d.content()
+    n = len(full)
+    n_entries = len(case["entries"])
+    mx = max([case["common"]] + [c for k, _ in case["entries"] for c in k])
+    regs = refcodec.regions(n, n_entries, case["arity"] if n_entries else 0, refcodec.narrowest_word(mx), 4)
+    ks = set(range(0, 26))
+    for _, lo, hi in regs:
+        ks.update((lo - 1, lo, lo + 1, lo + 4, hi - 1))
+    for p2 in (4096, 65536, 1 << 20, 1 << 24):
+        ks.update((p2 - 1, p2, p2 + 1, n - p2))
+    ks.update((n - 1, n - 2, n - 3, n - 4, n - 5, n - 8, n // 2))
+    rnd = random.Random(case_digest(case))
+    ks.update(rnd.randrange(n) for _ in range(24))
+    ks = sorted(k for k in ks if 0 <= k < n)
+    for k in ks:
+        stats.count("fault_crash_at_byte")
+        stats.count("fault_crash_sampled_in_big_file")
+        stats.count("cut_region_" + refcodec.region_of(k, regs, n))
+        _must_reject(prop, full[:k], "crash:big:%d" % k, rmode, stats, log, n)
+    for k in ks[::4]:
+        with disk.SimDisk() as d:
+            fobj = None
+            with disk.FullDisk(k):
+                try:
+                    fobj = d.writer("raw")
+                    with warnings.catch_warnings():
+                        warnings.simplefilter("ignore")
+                        catii_indxio().save(fobj, entries_dict(case), case["common"], U32)
+                except Exception:
+                    pass
+                try:
+                    if fobj is not None:
+                        fobj.close()
+                except Exception:
+                    pass
+            survived = d.content()
+        stats.count("fault_disk_full")
+        if len(survived) > k or survived == full:
+            raise core.HarnessError("RLIMIT_FSIZE=%d left %d bytes of %d" % (k, len(survived), n))
+        _must_reject(prop, survived, "fulldisk:big:%d" % k, rmode, stats, log, n)
+    stats.count("big_files")
+    stats.maximum("max_file_len", n)
 
 
 def c12_execute(case, stats, log, only=None):
     """only: optional {"fault": "crash"|"fulldisk", "k": int, "mode": str} to replay one fault."""
     prop = "C12"
+    if is_big(case):
+        return c12_big(case, stats, log)
     rmode = case["rmode"]
     with disk.SimDisk() as d:
         f = real_save(case, d, log)
@@ -484,7 +626,7 @@ def c12_execute(case, stats, log, only=None):
                     f = None
                     with disk.FullDisk(k):
                         try:
-                            f = d.writer(mode)
+                            f = d.writer(mode, case.get("bufsize"))
                             with warnings.catch_warnings():
                                 warnings.simplefilter("ignore")
                                 catii_indxio().save(f, entries_dict(case), case["common"], U32)
@@ -505,6 +647,24 @@ def c12_execute(case, stats, log, only=None):
                 if survived == full:
                     raise core.HarnessError("full-disk run produced the complete file")
                 _must_reject(prop, survived, "fulldisk:%s:%d" % (mode, k), rmode, stats, log, len(full))
+    # 3. the file is torn IN PLACE (same inode) after this very process loaded the complete copy and
+    #    still holds what it loaded: "rewrite in place, crash" with a long-running reader
+    if (only is None or only["fault"] == "inplace") and 16 < len(full) <= 4000:
+        with disk.SimDisk(full) as d:
+            try:
+                held = real_load(d, rmode)
+            except Exception:
+                held = None
+            for k in range(len(full) - 1, -1, -1):  # shrinking truncations of the same file
+                os.ftruncate(d.fd, k)
+                stats.count("fault_torn_in_place_after_load")
+                _must_reject(prop, None, "inplace:truncate:%d" % k, rmode, stats, log, len(full), on_disk=d)
+            for k in sorted({len(full) - 1, len(full) - 4, len(full) // 2, 17, 20} & set(range(len(full)))):
+                os.ftruncate(d.fd, 0)  # re-save from scratch into the same file, cut after k bytes
+                os.pwrite(d.fd, full[:k], 0)
+                stats.count("fault_resaved_in_place_and_cut")
+                _must_reject(prop, None, "inplace:resave:%d" % k, rmode, stats, log, len(full), on_disk=d)
+            del held
     stats.count("files")
     stats.count("file_bytes", len(full))
     stats.maximum("max_file_len", len(full))
@@ -513,10 +673,6 @@ def c12_execute(case, stats, log, only=None):
 def c12_run(base_seed, idx, stats, opts):
     rng = core.rng_for(base_seed, "storage", idx)
     case = pick_case(rng, opts.get("tier", "quick"))
-    if sum(len(v) for _, v in case["entries"]) > 600 or len(case["entries"]) > 200:
-        # exhaustive cut-point enumeration is quadratic in the file size; big files belong to C10/C11
-        stats.count("skipped_big_file")
-        return "skipped"
     return run_case("C12", case, stats)
 
 
@@ -525,11 +681,27 @@ def c12_run(base_seed, idx, stats, opts):
 EXECUTORS = {"C10": c10_execute, "C11": c11_execute, "C12": c12_execute}
 
 
+def files_of(case):
+    return case["files"] if case.get("kind") == "multi" else [case]
+
+
+def execute_all(prop, case, stats, log):
+    for n, one in enumerate(files_of(case)):
+        try:
+            EXECUTORS[prop](one, stats, log)
+        except Violation as v:
+            if case.get("kind") == "multi":
+                v.message = "file %d of %d in this process: %s" % (n + 1, len(case["files"]), v.message)
+            raise
+    if case.get("kind") == "multi":
+        stats.count("runs_with_several_files_in_one_process")
+
+
 def run_case(prop, case, stats):
     log = core.EventLog()
     try:
         try:
-            EXECUTORS[prop](case, stats, log)
+            execute_all(prop, case, stats, log)
         except SaveRaised as e:
             if prop == "C12":
                 stats.count("fault_free_save_raised_not_judged")
@@ -542,14 +714,15 @@ def run_case(prop, case, stats):
     except disk.SeamBypassed as e:
         raise core.HarnessError(str(e))
     stats.count("evaluations")
-    if case["kind"] == "entries":
-        if nontrivial(case):
-            stats.see("nontrivial_files", case_digest(case))
-        stats.see("files", case_digest(case))
-        stats.sample({"common": case["common"], "entries": case["entries"][:4], "wmode": case["wmode"]})
-    else:
-        stats.see("nontrivial_files", core.digest_of(case))
-        stats.sample(case)
+    for one in files_of(case):
+        if one["kind"] == "entries":
+            if nontrivial(one):
+                stats.see("nontrivial_files", case_digest(one))
+            stats.see("files", case_digest(one))
+            stats.sample({"common": one["common"], "entries": one["entries"][:4], "wmode": one["wmode"]})
+        else:
+            stats.see("nontrivial_files", core.digest_of(one))
+            stats.sample(one)
     return log.hexdigest()
 
 
@@ -557,7 +730,7 @@ def replay(prop, case):
     stats = core.Stats()
     log = core.EventLog()
     try:
-        EXECUTORS[prop](case, stats, log)
+        execute_all(prop, case, stats, log)
     except SaveRaised as e:
         if prop != "C12":
             raise Violation(prop, "save-raised:" + type(e.args[0]).__name__, "save",
@@ -576,6 +749,19 @@ def _fails_same(prop, case, signature):
 
 def minimise(prop, case, signature):
     """Shrink entries, row ids and magnitudes while the same violation signature persists."""
+    if case["kind"] == "multi":
+        files = core.ddmin(case["files"], lambda sub: bool(sub) and _fails_same(prop, {"kind": "multi", "files": sub}, signature))
+        if len(files) == 1:
+            return minimise(prop, files[0], signature)
+        out = []
+        for i in range(len(files)):
+            def fails(one, i=i):
+                return _fails_same(prop, {"kind": "multi", "files": out + [one] + files[i + 1:]}, signature)
+            small = files[i]
+            ents = core.ddmin(small["entries"], lambda sub: fails(dict(small, entries=sub)), max_tests=60)
+            out.append(dict(small, entries=ents))
+        return {"kind": "multi", "files": out}
+    case = expand(case)
     if case["kind"] != "entries":
         best = dict(case)
         lens = list(best["lengths"])
